@@ -20,7 +20,7 @@ RULE = ("One real Zeroconf in the simulator with 1..3 AsyncServiceBrowsers over 
         "found in the cache; no callback after async_cancel returned. Distinct = (event kind, cache relation, expiry path, "
         "#browsers) classes.")
 ASSUMPTIONS = ["PTR owner names are spelled exactly as the browsed type (one history in eight also has pointers owned by a subtype of the browsed type: known finding F44); browsed types are not sub/super-types of one another; no case-variants within one datagram;"
-               " browsers are not created while an expired-but-unpurged PTR of their type is cached (generator checks; discards counted)"]
+               " browsers are also started while an expired-but-unpurged PTR of their type is cached (counted as an observation)"]
 
 BASE_TYPES = ["_http._tcp.local.", "_ipp._tcp.local."]
 # a subtype whose own label has no underscore (RFC 6763 section 7.1: subtype identifiers are arbitrary strings); its pointers
@@ -247,9 +247,8 @@ def run_history(res: Result, seed: int, length: int) -> None:
             def start_browser() -> None:
                 types = rng.choice([[TYPES[0]], [TYPES[1]], list(TYPES)])
                 if run.has_expired_unpurged(types):
-                    run.discarded_starts += 1
-                    res.obs("browser_start_discarded_expired_unpurged_ptr_cached")
-                    return
+                    # (such starts were left out until the F20 repair: adding a listener now purges what has run out first)
+                    res.obs("browser_started_while_expired_unpurged_ptr_cached")
                 bid = run.next_bid
                 run.next_bid += 1
                 run.browsers[bid] = {"types": types, "cancelled": False, "obj": None}
